@@ -114,27 +114,38 @@ def expHeader (bm : Nat) (e : Int) : Bytes :=
 /-- the 7 octets following the first one of the big-endian image of the double -/
 def rawOctets (b : Nat) : Bytes := toBEn 7 (b % 2 ^ 56)
 
-/-- `dscr[]` after `dscr[0] = 0x10 | (dscr[0] & 0x0f)` -/
+/-- `dscr[]` after the exponent bits are removed: `dscr[0] = 0x10 | (dscr[0] & 0x0f)` (explicit 1)
+    for a normal double, `dscr[0] &= 0x0f` for a subnormal one (`expval < DBL_MIN_EXP - 1`) -/
 def scratch (b : Nat) : Bytes :=
   match rawOctets b with
-  | d0 :: ds => (16 + d0 % 16) :: ds
+  | d0 :: ds => ((if ilogb b < -1022 then 0 else 16) + d0 % 16) :: ds
   | [] => []
 
-/-- second half of the general branch: `dscr` = `dscr[0..mstop]` with the hidden bit forced,
+/-- `while(mstart < mstop && *mstart == 0) mstart++;` on `dscr[0..mstop]`: leading zero octets
+    are dropped, the last octet always stays -/
+def stripZeros : Bytes → Bytes
+  | [] => []
+  | [x] => [x]
+  | x :: y :: rest => if x = 0 then stripZeros (y :: rest) else x :: y :: rest
+
+/-- second half of the general branch: `dscr` = `dscr[0..mstop]` with the exponent bits removed,
     `expval` already adjusted by `8 * ((mstop - dscr) + 1) - 4`; makes the mantissa odd
-    (DER 11.3.1) and emits first octet, exponent and mantissa octets -/
+    (DER 11.3.1), skips leading zero mantissa octets and emits first octet, exponent and
+    mantissa octets -/
 def d2rEmit (bm : Nat) (expval : Int) (dscr : Bytes) : Bytes :=
   let mval := dscr.getLastD 0
   if mval ≠ 0 ∧ mval % 2 = 0 then
     let sc := shiftCount mval
-    expHeader bm (expval + sc) ++ shiftR sc 0 dscr
+    expHeader bm (expval + sc) ++ stripZeros (shiftR sc 0 dscr)
   else
-    expHeader bm expval ++ dscr
+    expHeader bm expval ++ stripZeros dscr
 
 /-- the general (non-special) branch of `asn_double2REAL` -/
 def double2REALfinite (b : Nat) : Bytes :=
-  let mstop := lastNonzero (rawOctets b) 0 0          -- computed BEFORE the hidden bit is forced
-  d2rEmit (128 + 64 * signOf b) (ilogb b - (8 * ((mstop : Int) + 1) - 4)) ((scratch b).take (mstop + 1))
+  let mstop := lastNonzero (rawOctets b) 0 0          -- computed BEFORE the exponent bits are removed
+  -- `if(expval < DBL_MIN_EXP - 1) expval = DBL_MIN_EXP - 1;` (subnormal: fixed exponent)
+  let expval := if ilogb b < -1022 then -1022 else ilogb b
+  d2rEmit (128 + 64 * signOf b) (expval - (8 * ((mstop : Int) + 1) - 4)) ((scratch b).take (mstop + 1))
 
 /-- `asn_double2REAL(st, d)`: the content octets stored in `st` (`b` = bit pattern of `d`) -/
 def double2REAL (b : Nat) : Bytes :=
